@@ -263,6 +263,9 @@ func runWorker(specFile string) int {
 // emitRepeats: extra native runs of the second witness of a path-invariant counterexample.
 const emitRepeats = 8
 
+// schedRepeats: extra native runs of a counterexample that was found under an explored schedule.
+const schedRepeats = 150
+
 type cexRecord struct {
 	Harness string
 	Case    int
@@ -809,6 +812,7 @@ func finish(p *propertySpec, tier string, seed int64, results []*harnessResult, 
 
 	// counterexamples and samples for native replay
 	var allCex []*cexRecord
+	schedDependent := map[*cexRecord]bool{}
 	for _, hr := range results {
 		var sigs []string
 		for s := range hr.cex {
@@ -817,6 +821,9 @@ func finish(p *propertySpec, tier string, seed int64, results []*harnessResult, 
 		sort.Strings(sigs)
 		for _, s := range sigs {
 			allCex = append(allCex, hr.cex[s])
+			if hr.spec.Sched >= 0 {
+				schedDependent[hr.cex[s]] = true
+			}
 		}
 	}
 	rng := rand.New(rand.NewSource(seed))
@@ -865,6 +872,12 @@ func finish(p *propertySpec, tier string, seed int64, results []*harnessResult, 
 			// witness is run several more times, any run that emits a different value reproduces it
 			for k := 0; k < emitRepeats; k++ {
 				ws = append(ws, witness{ID: fmt.Sprintf("cex%db%d", i, k), Harness: c.Harness, Case: c.Case, Assignment: c.Other, Isolate: true})
+			}
+		} else if schedDependent[c] && (c.Cex.Kind == "assert" || c.Cex.Kind == "panic") {
+			// found under an explored goroutine schedule: the native run cannot be forced into that
+			// schedule, so the witness is run many times (the Go scheduler picks the interleavings)
+			for k := 0; k < schedRepeats; k++ {
+				ws = append(ws, witness{ID: fmt.Sprintf("cex%ds%d", i, k), Harness: c.Harness, Case: c.Case, Assignment: c.Cex.Assignment})
 			}
 		}
 	}
@@ -930,12 +943,26 @@ func finish(p *propertySpec, tier string, seed int64, results []*harnessResult, 
 							reproduced[i] = true
 						}
 					}
+					for k := 0; k < schedRepeats && !reproduced[i] && schedDependent[c]; k++ {
+						if rk := nres[fmt.Sprintf("cex%ds%d", i, k)]; rk != nil {
+							for _, l := range rk.Asserts {
+								if l == c.Cex.Label {
+									reproduced[i] = true
+								}
+							}
+						}
+					}
 					if !reproduced[i] && r.Panic != "" {
 						addInc("counterexample %s: native run panicked instead: %s", c.signature(), firstLine(r.Panic))
 					}
 				case "panic":
 					if r.Panic != "" {
 						reproduced[i] = true
+					}
+					for k := 0; k < schedRepeats && !reproduced[i] && schedDependent[c]; k++ {
+						if rk := nres[fmt.Sprintf("cex%ds%d", i, k)]; rk != nil && rk.Panic != "" {
+							reproduced[i] = true
+						}
 					}
 				case "deadlock", "budget":
 					if r.Panic != "" || r.Timeout {
